@@ -385,6 +385,12 @@ func (l *Listener) Closed() bool {
 // Dial creates a connection from clientAddr ("" = fresh address) and queues it on
 // the listener; the accept loop wakes up and hands it to net/http.
 func (s *Sim) Dial(l *Listener, clientAddr string) *Conn {
+	return s.DialTo(l, clientAddr, "")
+}
+
+// DialTo is Dial to another address of a multi-homed accessory: the accepted connection's local
+// address is accAddr (the listener listens on all interfaces).
+func (s *Sim) DialTo(l *Listener, clientAddr, accAddr string) *Conn {
 	if l == nil {
 		panic("sim: Dial before the accessory listens")
 	}
@@ -398,6 +404,9 @@ func (s *Sim) Dial(l *Listener, clientAddr string) *Conn {
 	c.dir[0], c.dir[1] = &pipe{}, &pipe{}
 	c.addr[0] = Addr(clientAddr)
 	c.addr[1] = l.addr
+	if accAddr != "" {
+		c.addr[1] = Addr(accAddr)
+	}
 	s.Conns = append(s.Conns, c)
 	s.logLocked("  dial c" + strconv.Itoa(id) + " " + clientAddr)
 	s.mu.Unlock()
